@@ -18,6 +18,7 @@ and for every history
 -/
 import Bourse.Model.Ops
 import Bourse.Model.Json
+import Bourse.Model.PriceHelpers
 import Bourse.Spec.Audit
 import Bourse.Spec.Ref
 import Driver.Parse
@@ -243,7 +244,42 @@ def unhex (s : String) : Option (List Char) :=
 the real loader's verdict on variants of it, compared with `Model/Json.lean`. -/
 def handleJson (st : St) (toks : List String) (out : IO.FS.Stream) : IO St := do
   match st.hist with
-  | none => pure st
+  | none =>
+    -- a multi-asset market file (`J m` / `J mv` lines after a market-level reload)
+    match st.ehist with
+    | none => pure st
+    | some eh =>
+      if eh.kDead || eh.kind != "market" then pure st else
+      let idx := eh.opIdx - 1
+      let bad (what : String) : IO St := do
+        emit out s!"K {eh.id} {idx} {what} tr=1 op=mop:reload_json"
+        pure { st with nK := st.nK + 1 }
+      let books := eh.market.books
+      match toks with
+      | ["m", m, hx] =>
+        match unhex hx with
+        | none => bad "json_badhex"
+        | some text =>
+          if Json.saveMarketText books (m == "p") != text then
+            bad (if m == "p" then "json_market_text_pretty" else "json_market_text_compact")
+          else if Json.loadMarketText books.length text != some books then bad "json_market_load_of_own_text"
+          else pure { st with stats := bump st.stats (if m == "p" then "json:market_text_pretty_equal" else "json:market_text_compact_equal") }
+      | ["mv", kind, verdict, hx] =>
+        match unhex hx with
+        | none => bad "json_badhex"
+        | some text =>
+          let r := Json.loadMarketText books.length text
+          let st := { st with stats := bump st.stats s!"json:market_variant_{kind}_{verdict}" }
+          if verdict == "panic" then pure st
+          else if verdict == "ok" then do
+            let st ← (if kind == "cut" then do
+                emit out s!"A C07 {eh.id} {idx} truncated_market_snapshot_loaded tr=1 op=mop:reload_json"
+                pure { st with nA := st.nA + 1 }
+              else pure st)
+            if r.isNone then bad s!"json_market_variant_{kind}:impl=ok:model=reject" else pure st
+          else if r.isSome then bad s!"json_market_variant_{kind}:impl=err:model=ok"
+          else pure st
+      | _ => bad "json_badline"
   | some h =>
     if h.kDead then pure st else
     let idx := h.opIdx - 1
@@ -277,6 +313,45 @@ def handleJson (st : St) (toks : List String) (out : IO.FS.Stream) : IO St := do
         else pure st
       | _, _ => bad "json_badhex"
     | _ => bad "json_badline"
+
+/-- `PH` lines: the real `f64` price helpers on a dyadic input against `Model/PriceHelpers.lean`. -/
+def handlePH (toks : List String) : List String × List String :=
+  match toks with
+  | [hid, tick, mid2, dist, down, up, buy, sell, mbuy, msell] =>
+    match tick.toNat?, mid2.toNat? with
+    | some tick, some mid2 =>
+      let mid : Rat := mkRat mid2 2
+      let d : Option (Option Rat) := if dist == "inf" then some none else (parseRat dist).map some
+      match d with
+      | none => ([s!"BAD ph {hid}"], [])
+      | some d =>
+        let absd := d.map Helpers.absR
+        let mDown := Helpers.roundPriceDown (absd.map fun a => mid - a) tick
+        -- `mid - inf = -inf` rounds and clamps to 0
+        let mDown := if d.isNone then 0 else mDown
+        let mUp := Helpers.roundPriceUp (absd.map fun a => mid + a) tick
+        let mBuy := toString (Helpers.buyPrice mid d tick)
+        let mSell := toString (Helpers.sellPrice mid d tick)
+        let bad := (if toString mDown != down then ["round_price_down"] else []) ++
+                   (if toString mUp != up then ["round_price_up"] else []) ++
+                   (if mBuy != buy then ["place_buy_limit_order"] else []) ++
+                   (if mSell != sell then ["place_sell_limit_order"] else []) ++
+                   (if mBuy != mbuy then ["place_buy_limit_order_market"] else []) ++
+                   (if mSell != msell then ["place_sell_limit_order_market"] else [])
+        -- the property's own clauses on the implementation's output (mid at least a tick below MAX)
+        let onGrid (s : String) : Bool := match s.toNat? with | some p => p % tick == 0 | none => false
+        let aud := (if onGrid buy && onGrid mbuy then [] else ["buy_off_grid_or_rejected"]) ++
+                   (if onGrid sell && onGrid msell then [] else ["sell_off_grid_or_rejected"]) ++
+                   (match buy.toNat? with | some p => if (p : Rat) ≤ mid then [] else ["buy_above_mid"] | none => []) ++
+                   (match sell.toNat? with
+                    | some p => if mid + (tick : Rat) ≤ (MAXP : Rat) && (p : Rat) < mid then ["sell_below_mid"] else []
+                    | none => [])
+        let cfg := s!"tick={tick}_mid2={mid2}_dist={dist}"
+        ((if bad.isEmpty then [] else [s!"K {hid} 0 {",".intercalate bad} tr=1 op={cfg}"]) ++
+         (if aud.isEmpty then [] else [s!"A C16 {hid} 0 {",".intercalate aud} tr=1 op={cfg}"]),
+         ["ph:" ++ (if dist == "inf" then "inf" else if mDown == 0 then "buy_clamped_0" else if mUp == MAXP then "sell_clamped_max" else "plain")])
+    | _, _ => ([s!"BAD ph {hid}"], [])
+  | _ => (["BAD ph"], [])
 
 partial def loop (inp out : IO.FS.Stream) (st : St) : IO St := do
   let line ← inp.getLine
@@ -318,6 +393,15 @@ partial def loop (inp out : IO.FS.Stream) (st : St) : IO St := do
                              nK := st.nK + nK, nA := st.nA + nA }
     | none => loop inp out (← handleObs st rest out)
   | "J" :: rest => loop inp out (← handleJson st rest out)
+  | "PH" :: rest =>
+    let st := finishHist st
+    let (lines, tags) := handlePH rest
+    for l in lines do emit out l
+    let mut stats := st.stats
+    for t in tags do stats := bump stats t
+    loop inp out { st with stats := stats, nHist := st.nHist + 1, nOps := st.nOps + 1,
+                           nK := st.nK + (lines.filter (·.startsWith "K ")).length,
+                           nA := st.nA + (lines.filter (·.startsWith "A ")).length }
   | "MM" :: rest =>
     let st := finishHist st
     let (lines, tags) := handleMom rest
